@@ -177,9 +177,19 @@ type modelSite struct {
 // modelExtract is the independent site-model parser over the typed text. expectErr is true if the text cannot
 // be read to the end (over-long line).
 func modelExtract(shapes []int, i386 bool, names map[int]string) (sites []modelSite, expectErr bool) {
+	return modelExtractOpt(shapes, i386, names, false)
+}
+
+// modelExtractOpt: with longReadable the 70000-byte line is an ordinary neutral instruction line (what a parser with a
+// larger line buffer sees).
+func modelExtractOpt(shapes []int, i386 bool, names map[int]string, longReadable bool) (sites []modelSite, expectErr bool) {
 	function := ""
 	var window []int // indices into shapes since the last reset
 	for n, sh := range shapes {
+		if sh == shLong && longReadable {
+			window = append(window, n)
+			continue
+		}
 		switch sh {
 		case shLong:
 			return nil, true
@@ -360,7 +370,16 @@ func checkC16(tier, replay string) int {
 		if expectErr {
 			atomic.AddInt64(&errExpected, 1)
 			if r.err == nil {
-				ctx.Violation(key("truncated-without-error"), fmt.Sprintf("a line cannot be read (70000 bytes) but ExtractSyscalls returned %d syscalls and a nil error on [%s]", len(r.sites), shapesText(shapes)), rep)
+				// no error is only right if the parser really read the whole text (a larger line buffer than bufio's default):
+				// then its result has to be the one for the complete text, the long line being an ordinary instruction line
+				whole, _ := modelExtractOpt(shapes, pc.i386, pc.names, true)
+				same := len(whole) == len(r.sites)
+				for i := 0; same && i < len(whole); i++ {
+					same = whole[i] == r.sites[i]
+				}
+				if !same {
+					ctx.Violation(key("truncated-without-error"), fmt.Sprintf("a 70000-byte line is in the text; ExtractSyscalls returned a nil error and %+v, which is not the result for the whole text (%+v) on [%s]", r.sites, whole, shapesText(shapes)), rep)
+				}
 			}
 			return nil
 		}
